@@ -96,8 +96,8 @@ def _python_case(draw):
 
 
 ENT = ["&amp;", "&lt;", "&gt;", "&quot;", "&copy;", "&eacute;", "&#169;", "&#x41;", "&nbsp;", "&#8364;"]
-TEXTS = ["&lt;b&gt;x&lt;/b&gt;", "&lt;img src=x&gt;", "&amp;lt;i&amp;gt;", "a&lt;b", "plain", " two words ", "a &amp; b", "1 &lt; 2", "café", "\n  ", "x&nbsp;y", "&copy; 2024", "tab\there", "&#x41;BC", "$notvar ${x}"]
-ATTRV = ["v", "two words", "a &amp; b", "", "x&quot;y", "café", "http://x/?a=1&amp;b=2", "it's", "&lt;b&gt;"]
+TEXTS = ["&#60;b&#62;x&#60;/b&#62;", "a &#x3C; b", "&#38;lt;i&#38;gt;", "&#x26;amp;", "&apos;q&apos;", "&lt;b&gt;x&lt;/b&gt;", "&lt;img src=x&gt;", "&amp;lt;i&amp;gt;", "a&lt;b", "plain", " two words ", "a &amp; b", "1 &lt; 2", "café", "\n  ", "x&nbsp;y", "&copy; 2024", "tab\there", "&#x41;BC", "$notvar ${x}"]
+ATTRV = ["&#34;q&#34;", "a&#x3C;b", "v", "two words", "a &amp; b", "", "x&quot;y", "café", "http://x/?a=1&amp;b=2", "it's", "&lt;b&gt;"]
 RAW = ["", "if (a < b && c > d) { x(\"</\" + \"div>\"); }", "var s = '<b>' + \"&amp;\";", "a&b", "p > a { color: red }", "/* <!-- */", "x < y"]
 NEST = ["div", "span", "b", "em", "ul", "table", "section", "a", "h2", "DIV", "Span"]
 OPT_END = ["p", "li", "td", "tr"]
